@@ -140,9 +140,10 @@ RECURSIVE Enc(_)
 EncAll(vs) == FoldLeft(LAMBDA a, v : a \o Enc(v), <<>>, vs)
 \* pairs <<k1,v1,k2,v2,...>> -> sequence of [k, v] with the LAST occurrence of a key winning
 Pairs(its) == LET n == Len(its) \div 2
-                  raw == [i \in 1..n |-> [k |-> its[2*i-1].v, v |-> its[2*i]]]
-                  lastIdx == {i \in 1..n : \A j \in (i+1)..n : raw[j].k # raw[i].k}
-              IN  SetToSortSeq({raw[i] : i \in lastIdx}, LAMBDA p, q : LexLess(p.k, q.k))
+                  key(i) == its[2*i-1].v
+                  lastIdx == {i \in 1..n : \A j \in (i+1)..n : key(j) # key(i)}
+                  order == SetToSortSeq(lastIdx, LAMBDA i, j : LexLess(key(i), key(j)))
+              IN  [x \in 1..Len(order) |-> [k |-> key(order[x]), v |-> its[2*order[x]]]]
 Enc(v) == CASE v.t = "i" -> <<"i">> \o (IF v.neg THEN <<"-">> ELSE <<>>) \o v.d \o <<"e">>
             [] v.t = "s" -> NatDigits(Len(v.v)) \o <<":">> \o v.v
             [] v.t = "l" -> <<"l">> \o EncAll(v.v) \o <<"e">>
